@@ -160,11 +160,15 @@ fm.model = torch.nn.Linear(3, 3)
 with torch.no_grad():
     fm.model.weight.fill_(2.0); fm.model.bias.fill_(2.0)      # "NEW"
 real_save = torch.save
-if where == "mid-write":
+if where.startswith("mid-write"):
+    # killed after `nbytes` bytes of the in-place write reached the file
+    # (torch.load fails differently on 0, 1-3 and more bytes)
+    nb = where.split(":")[1]
     def torn(obj, path, *a, **k):
         buf = io.BytesIO(); real_save(obj, buf)
+        n = len(buf.getvalue()) // 2 if nb == "half" else int(nb)
         with open(path, "wb") as fh:
-            fh.write(buf.getvalue()[: len(buf.getvalue()) // 2]); fh.flush()
+            fh.write(buf.getvalue()[:n]); fh.flush()
         os._exit(77)
     torch.save = torn
 else:                                   # killed right after the move
@@ -184,7 +188,9 @@ def weights_recovery_replay(rec):
     from nessai.flowmodel.base import FlowModel
     from nessai.proposal.flowproposal import FlowProposal
     bad = []
-    for where in ("mid-write", "after-move"):
+    for where in ("mid-write:0", "mid-write:1", "mid-write:2",
+                  "mid-write:3", "mid-write:4", "mid-write:half",
+                  "after-move"):
         d = tempfile.mkdtemp(prefix="pyvc-c11w-")
         try:
             f = os.path.join(d, "model.pt")
@@ -230,5 +236,6 @@ def weights_recovery_replay(rec):
         for b in bad:
             print("REPRODUCED:", b)
         return 10
-    print("weights recovered in both crash scenarios: not reproduced")
+    print("weights recovered in every crash scenario (kill after 0, 1, 2, 3, "
+          "4, half of the bytes; kill after the move): not reproduced")
     return 0
